@@ -94,6 +94,29 @@ let () =
              Printf.sprintf "%d:%s" k (String.concat "," (Stdlib.List.map string_of_int v))) g))
          | None -> ());
         print_newline ()
+      | "B" :: ms ->
+        (* coq/ErrBuf.v: the diagnostics of a run in the order they are raised, each fn:digits:len:line -> the order of the
+           lines -B prints (every batch sorted by line), then for each diagnostic D | S<slot>[!] (! = cut short) *)
+        let st = ref ErrBuf.init in
+        let batch = ref [] and out = ref [] and marks = ref [] in
+        let flush () = out := !out @ (Stdlib.List.sort compare (Stdlib.List.rev !batch)); batch := [] in
+        Stdlib.List.iter (fun w ->
+            match String.split_on_char ':' w with
+            | [fn; dg; ln; line] ->
+              let m = { ErrBuf.m_len = z_of_string ln; ErrBuf.m_fn = z_of_string fn; ErrBuf.m_digits = z_of_string dg } in
+              let before = !st in
+              let (s', what) = ErrBuf.report before m in
+              (match what with
+               | ErrBuf.Direct -> flush (); out := !out @ [int_of_string line]; marks := "D" :: !marks
+               | ErrBuf.Stored (at, slot, cut) ->
+                 if int_of_z at = 0 && int_of_z before.ErrBuf.used <> 0 then flush ();
+                 batch := int_of_string line :: !batch;
+                 marks := (Printf.sprintf "S%d%s" (int_of_z slot) (if cut then "!" else "")) :: !marks;
+                 if int_of_z s'.ErrBuf.used = 0 then flush ());
+              st := s'
+            | _ -> failwith "bad message") ms;
+        flush ();
+        Printf.printf "B %s ; %s\n" (String.concat " " (Stdlib.List.map string_of_int !out)) (String.concat " " (Stdlib.List.rev !marks))
       | _ -> ()
     done
   with End_of_file -> ()
